@@ -10,6 +10,7 @@ from __future__ import annotations
 import ast
 import builtins
 import operator
+from fractions import Fraction
 
 import numpy as np
 import z3
@@ -82,6 +83,14 @@ class Closure:
         self.interp = interp
 
 
+class PyFn:
+    """Callable value implemented by the verifier: fn(interp, line, *args, **kwargs)."""
+
+    def __init__(self, fn, name=None):
+        self.fn = fn
+        self.name = name
+
+
 class SymIter:
     """Iterable of symbolic length."""
 
@@ -108,7 +117,7 @@ BIN = {ast.Add: '+', ast.Sub: '-', ast.Mult: '*', ast.Div: '/', ast.FloorDiv: '/
 def is_concrete(x, depth=0):
     if depth > 6:
         return True
-    if isinstance(x, (z3.ExprRef, STensor, SFrame, SRow, SObj, SSeq, SOpt, SymIter, LibRef, FuncRef, ClassRef, Closure)):
+    if isinstance(x, (z3.ExprRef, STensor, SFrame, SRow, SObj, SSeq, SOpt, SymIter, LibRef, FuncRef, ClassRef, Closure, PyFn)):
         return False
     if isinstance(x, (list, tuple, set, frozenset)):
         return all(is_concrete(e, depth + 1) for e in x)
@@ -606,6 +615,20 @@ class Interp:
         return self.binary(op, a, b, node.lineno)
 
     def binary(self, op, a, b, line=None):
+        a, b = pyval(a), pyval(b)
+        if isinstance(a, (int, float, Fraction)) and isinstance(b, (int, float, Fraction)) and not isinstance(a, bool) \
+                and not isinstance(b, bool) and (isinstance(a, (float, Fraction)) or isinstance(b, (float, Fraction))):
+            # A-REAL: a float literal denotes the real number written in the source; concrete float arithmetic is exact
+            fa, fb = V.exact(a), V.exact(b)
+            try:
+                if op == '**':
+                    if isinstance(b, int) or fb.denominator == 1:
+                        return fa ** int(fb)
+                    raise Unsupported('non-integer power of constants')
+                return {'+': operator.add, '-': operator.sub, '*': operator.mul, '/': operator.truediv,
+                        '//': lambda x, y: Fraction(x // y), '%': operator.mod}[op](fa, fb)
+            except ZeroDivisionError:
+                raise _Raise('ZeroDivisionError', line=line)
         if isinstance(a, np.ndarray) and isinstance(b, np.ndarray) or (
                 is_concrete(a) and is_concrete(b) and not isinstance(a, STensor) and not isinstance(b, STensor)):
             try:
@@ -966,6 +989,8 @@ class Interp:
             return self.call_py_method(f.base, f.attr, args, kwargs, line)
         if isinstance(f, ClassRef):
             return self.unit.construct(self, f, args, kwargs, line)
+        if isinstance(f, PyFn):
+            return f.fn(self, line, *args, **kwargs)
         if isinstance(f, BuiltinRef):
             return self.call_builtin(f.name, args, kwargs, line)
         if callable(f) and is_concrete(args) and is_concrete(kwargs):
